@@ -33,8 +33,22 @@ pub fn check_ring(run: &mut Run, c: MCell, segments: Option<i32>, closed: bool, 
             return;
         }
     };
-    let n = segments.unwrap_or_else(|| 1.max(1 << (6 - c.res).max(0))) as usize;
     let nv = if c.res == 1 { 3 } else { 5 };
+    // with the resolution-dependent default the subdivision is whatever the library chose: it must be a whole number >= 1
+    let n = match segments {
+        Some(n) => n as usize,
+        None => {
+            let body = ring.len().saturating_sub(closed as usize);
+            if body < nv || body % nv != 0 {
+                run.violation("C11.length", case(), format!("{} points with the default subdivision: not a multiple of {nv}{}", ring.len(), if closed { " plus 1" } else { "" }));
+                return;
+            }
+            if body / nv != 1.max(1usize << (6 - c.res).max(0)) {
+                run.count("default_subdivision_differs_from_2^(6-res)");
+            }
+            body / nv
+        }
+    };
     let want_len = nv * n + closed as usize;
     if ring.len() != want_len {
         run.violation("C11.length", case(), format!("{} points, expected {nv} x {n}{}", ring.len(), if closed { " + 1" } else { "" }));
